@@ -329,10 +329,92 @@ def r5(ctx):
     C03.r7(ctx)
 
 
+def _coroutine_of(ctx, term, suffix):
+    """closure / coroutine aggregates inside `term` whose definition ends with `suffix`, with their capture map"""
+    out = []
+    for s_ in mir.subterms(term):
+        if s_[0] == "agg" and s_[1].startswith("closure:") and mir._strip_generics(s_[1]).endswith(suffix):
+            cb, caps = mir.closure_body(ctx.facts, s_)
+            out.append((s_, cb, caps))
+    return out
+
+
+def r6(ctx):
+    """wiring: the manager's answers reach the engine and the timeout is the configured one.  The event a request yields travels
+    response_tx -> (merged account stream returned by `init`) -> forward_to(the engine's merged channel); an adaptor on that path that
+    drops or holds events, or a timeout that is not the caller's, breaks "exactly one, the response if within the timeout" although
+    `run` itself is untouched."""
+    ds = [d for d in ctx.facts.bodies if mir._strip_generics(d) == EM + "::init::{closure#0}"]
+    if len(ds) != 1:
+        raise Exception("ExecutionManager::init coroutine not found: %r" % ds)
+    ib = ctx.ibody(ds[0])
+    chans = [tm for bi, t, tm in ib.real_calls() if mir.short(tm[1]) == "channel::mpsc_unbounded"]
+    oks = [t for g, t, bi in ib.expanded_cases(0) if render(t).startswith("Result::Ok")]
+    ok = len(chans) == 1 and len(oks) >= 1
+    got = []
+    for t in oks:
+        tup = t[3][0] if t[0] == "agg" and len(t[3]) == 1 else None
+        if not (tup and tup[0] == "agg" and len(tup[3]) == 2):
+            ok = False
+            got.append(render(t)[:200])
+            continue
+        mgr = common.resolve_calls(ctx, tup[3][0], lambda c: mir._strip_generics(c) == EM + "::new")
+        f = dict(zip(mgr[2], mgr[3])) if mgr[0] == "agg" else {}
+        stream = tup[3][1]
+        g_ = {"request_timeout": render(f.get("request_timeout", ("const", "?", ""))), "response_tx": render(f.get("response_tx", ("const", "?", ""))),
+              "request_stream": render(f.get("request_stream", ("const", "?", ""))),
+              "stream": render(stream)[:160]}
+        got.append(g_)
+        ok = ok and g_["request_timeout"] == "^request_timeout" and g_["request_stream"] == "^request_stream" and \
+            g_["response_tx"] == "channel::mpsc_unbounded().0" and stream[0] == "call" and mir.short(stream[1]) == "merge::merge" and \
+            render(stream[2][0]) == "UnboundedRx::into_stream(channel::mpsc_unbounded().1)"
+    ctx.check("ExecutionManager::init", ok,
+              "the manager is built with the caller's request stream and timeout and the sender of ONE fresh channel; the stream handed back is "
+              "merge(receiver of that channel, account stream) itself - no adaptor after the merge that could drop, hold or reorder a response",
+              got=got[:2], key="response-path")
+    EB = "barter::execution::builder::ExecutionBuilder"
+    ab = ctx.fibody(name="add_execution", self_adt=EB, trait="")
+    pushes = [tm for bi, t, tm in ab.real_calls() if mir.short(tm[1]) == "Vec::push" and render(tm[2][0]) == "self.execution_init_futures"]
+    inits = [x for tm in pushes for x in _coroutine_of(ctx, tm, "ExecutionManager::init::{closure#0}")]
+    ok = len(pushes) == 1 and len(inits) == 1
+    got = None
+    if ok:
+        caps = inits[0][2]
+        got = {k: render(v)[:120] for k, v in caps.items() if k in ("request_timeout", "request_stream")}
+        ins = [tm for bi, t, tm in ab.real_calls() if mir._strip_generics(tm[1]).endswith("HashMap::insert") and render(tm[2][0]) == "self.execution_txs"]
+        ok = got == {"request_timeout": "request_timeout", "request_stream": "UnboundedRx::into_stream(channel::mpsc_unbounded().1)"} and \
+            len(ins) == 1 and render(ins[0][2][1]) == "exchange" and render(mir.mk_proj(ins[0][2][2], ("1",))) == "channel::mpsc_unbounded().0" and \
+            len([1 for bi, t, tm in ab.real_calls() if mir.short(tm[1]) == "channel::mpsc_unbounded"]) == 1
+    ctx.check("ExecutionBuilder::add_execution", ok,
+              "the manager is initialised with the caller's own request timeout, unmodified, and with the receiving end of the request channel "
+              "whose sender is registered for this exchange", got=got, key="timeout-and-requests")
+    fwd = [x for tm in pushes for x in _coroutine_of(ctx, tm, "add_execution::{closure#0}")]
+    ok = len(fwd) == 1
+    got = None
+    if ok:
+        # (inlined view: `result.map(|(manager, stream)| ..)` is already part of the outer closure's body)
+        rt = mir.in_closure(ctx.facts, fwd[0][0], fwd[0][1].return_term())
+        got = render(rt)[:300]
+        runs = _coroutine_of(ctx, rt, "ExecutionManager::run::{closure#0}")
+        fw = [s_ for s_ in mir.subterms(rt) if s_[0] == "call" and mir.short(s_[1]) == "ReconnectingStream::forward_to"]
+        ok = len(runs) == 1 and [render(v) for v in runs[0][0][3]] == ["$1.as:Ok.0.0"] and len(fw) == 1 and \
+            [render(a) for a in fw[0][2]] == ["$1.as:Ok.0.1", "self.merged_channel.tx"]
+    ctx.check("ExecutionBuilder::add_execution", ok,
+              "the two futures run the initialised manager itself and forward ITS stream, as it is, to the engine's merged account channel",
+              got=got, key="forwards-all")
+    lb = ctx.fibody(name="add_live", self_adt=EB, trait="")
+    cs = [tm for bi, t, tm in lb.real_calls() if mir.short(tm[1]) == "ExecutionBuilder::add_execution"]
+    ctx.check("ExecutionBuilder::add_live", len(cs) == 1 and render(cs[0][2][-1]) == "request_timeout" and lb.guard(
+        [bi for bi, t, tm in lb.real_calls() if tm == cs[0]][0]) == frozenset([frozenset()]),
+        "the live manager gets exactly the timeout its caller configured", got=[render(c[2][-1]) for c in cs], key="timeout")
+    ctx.floor("wiring", len(oks) + len(inits) + len(fwd) + len(cs), 4)
+
+
 RULES = [
     ("R1", "intake: every Cancel/Open request is pushed as RequestFuture(client call of its translation, timeout, that request)", r1),
     ("R2", "each completion yields exactly one sent event (response or timeout), per matching set; catalogued exception only", r2),
     ("R3", "RequestFuture: tokio timeout wrapper; elapse -> Err(original request)", r3),
     ("R4", "attribution of timeout / response events to the request's own exchange, instrument, cid", r4),
     ("R5", "attribution depends on the indexer: keyed inverse tables, role-preserving translation, own exchange only (C04.R4-R6)", r5),
+    ("R6", "wiring: responses travel response_tx -> merge -> forward_to unfiltered; the timeout is the configured one", r6),
 ]
